@@ -1,14 +1,20 @@
-(* Correspondence for C11: lock-step comparison of the LTS of Model/Cloud.v with a real CloudHandler
-   driven label by label (DispatchMetricMap / DispatchEvent for the caller side, then the verif step
-   hooks for Run's arms) over a scripted CachedInstances and a capturing downstream handler.
-   One case = a list of (label, observation after the label).  Compared after every label:
-     - what reached the downstream handler during the label: the dispatched MetricMap (exact dump, against
-       the merge of the series the model delivered) and the multiset of events;
+(* Correspondence for C11: lock-step comparison of the LTS of Model/Cloud.v with a real CloudHandler whose
+   real Run goroutine is driven one select arm at a time (DispatchMetricMap / DispatchEvent meet the receive
+   arms, the harness plays the cache: it receives on IpSink() = SendLookup and sends on InfoSource() = Info)
+   over a scripted Peek and a capturing downstream handler.  After every arm the harness pushes two
+   statsers through emitChan (two Emit arms: when the second has been served, the loop iteration of the
+   label - including the refill of the send register - is complete and Run is idle), then records the
+   observation.  One case = a list of (label, observation after label; Emit; Emit).  Compared:
+     - what reached the downstream handler during the label: the dispatched MetricMap against the merge of
+       the series the model delivered, exactly except for what Go's map iteration order decides when series
+       collide after re-keying (order of timer values; which of two gauges with equal newest timestamp
+       wins), and the multiset of events;
      - the park slots: key sets, the parked MetricMap per source (exact dump against the merge of the
        series the model parked), the parked events per source in order;
-     - toLookupIPs as a multiset (its order depends on Go's map iteration);
-     - the three queue gauges, read through emit() into a capturing statser.
-   The source popped by the real refill is carried by the label SendLookup s; the model must allow it. *)
+     - toLookupIPs against the model's stack: bottom to top, group by group (LIFO between arms, any order
+       inside the group one handleIncomingMetrics call pushed), minus the one element in the send register;
+     - the three queue gauges reported by the two emits.
+   The source received on IpSink() is carried by the label SendLookup s; the model must allow it. *)
 From GS Require Export Base.Bytes Base.CorrLib Model.Series Model.MetricMap Model.Cloud Corr.MMLib.
 From stdpp Require Import gmap.
 Local Open Scope Z_scope.
@@ -27,6 +33,11 @@ Record obs := Obs {
 }.
 
 Record c11case := Case { k_steps : list (label * obs) }.
+
+(* insertion sort on Z, for comparing timer values as multisets *)
+Fixpoint zinsert (x : Z) (l : list Z) : list Z :=
+  match l with [] => [x] | y :: r => if (x <=? y)%Z then x :: l else y :: zinsert x r end.
+Definition zsort (l : list Z) : list Z := fold_right zinsert [] l.
 
 Definition event_eqb (a b : cevent) : bool :=
   str_eqb (ev_title a) (ev_title b) && str_eqb (ev_text a) (ev_text b) && (ev_date a =? ev_date b)
@@ -50,11 +61,34 @@ Definition batch_metrics (b : list item) : list entry :=
 Definition batch_events (b : list item) : list cevent :=
   omap (λ x, match x with IE e => Some e | IM _ => None end) b.
 
+(* a gauge of the batch that may have won the merge: same series, the merged (newest) timestamp, this value *)
+Definition gauge_candidate (batch : list entry) (n k : str) (ts v : Z) : bool :=
+  existsb (λ e, match e with
+                | EG n2 k2 v2 ts2 _ _ => str_eqb n n2 && str_eqb k k2 && (ts2 =? ts) && (v2 =? v)
+                | _ => false
+                end) batch.
+
+(* observed series [a] against the model's [b]: exact, except timer values as a multiset and a gauge
+   value that may be any candidate *)
+Definition entry_rel (batch : list entry) (a b : entry) : bool :=
+  match a, b with
+  | ET n k vs sn sd ts s tg, ET n' k' vs' sn' sd' ts' s' tg' =>
+      entry_eqb (ET n k (zsort vs) sn sd ts s tg) (ET n' k' (zsort vs') sn' sd' ts' s' tg')
+  | EG n k v ts s tg, EG n' k' v' ts' s' tg' =>
+      entry_eqb (EG n k 0 ts s tg) (EG n' k' 0 ts' s' tg') && ((v =? v') || gauge_candidate batch n k ts v)
+  | _, _ => entry_eqb a b
+  end.
+
+Definition dispatch_matches (es : list entry) (batch : list entry) : bool :=
+  let m := abs_entries batch in
+  (length es =? length (entries m))%nat
+  && list_eqb (entry_rel batch) (entries (map_of_entries es)) (entries m).
+
 Definition down_ok (st st' : state) (o : obs) : bool :=
   let b := new_batch st st' in
   match batch_metrics b, o_mms o with
   | [], [] => true
-  | _ :: _, [d] => dump_matches d (abs_entries (batch_metrics b))
+  | _ :: _, [d] => dispatch_matches d (batch_metrics b)
   | _, _ => false
   end
   && perm_eqb event_eqb (batch_events b) (o_evs o).
@@ -84,19 +118,48 @@ Definition emit_ok (l : label) (st' : state) (g : Z * Z * Z) : bool :=
   | _ => true
   end.
 
-Definition obs_ok (l : label) (st st' : state) (o : obs) : bool :=
-  down_ok st st' o && slotsM_ok st' (o_awaitM o) && slotsE_ok st' (o_awaitE o)
-  && perm_eqb str_eqb (o_lookup o) (toLookup st') && gauges_ok st' (o_gauges o)
-  && emit_ok l st' (o_gauges o).
+(* [taken] is [g] minus exactly [k] elements *)
+Fixpoint remove_all (taken g : list source) : option (list source) :=
+  match taken with
+  | [] => Some g
+  | x :: r => match remove_first str_eqb x g with Some g' => remove_all r g' | None => None end
+  end.
+(* toLookupIPs (bottom first) against the groups (bottom first) *)
+Fixpoint lookup_ok (groups : list (bool * list source)) (obs : list source) : bool :=
+  match groups with
+  | [] => match obs with [] => true | _ => false end
+  | (f, g) :: r =>
+      let n := (length g - (if f then 1 else 0))%nat in
+      match remove_all (take n obs) g with
+      | Some rest => (length (take n obs) =? n)%nat && (length rest =? (if f then 1 else 0))%nat
+                     && lookup_ok r (drop n obs)
+      | None => false
+      end
+  end.
+
+Definition obs_ok (st0 st1 st' : state) (o : obs) : bool :=
+  down_ok st0 st1 o && slotsM_ok st' (o_awaitM o) && slotsE_ok st' (o_awaitE o)
+  && lookup_ok (rev (stack (lk st'))) (o_lookup o) && gauges_ok st' (o_gauges o)
+  && emit_ok Emit st' (o_gauges o).
+
+(* one harness step: the label's arm, then the two barrier emits *)
+Definition step3 (st : state) (l : label) : option (state * state) :=
+  match step st l with
+  | Some s1 => match step s1 Emit with
+               | Some s2 => match step s2 Emit with Some s3 => Some (s1, s3) | None => None end
+               | None => None
+               end
+  | None => None
+  end.
 
 (* index of the first step at which model and implementation differ; None = agree everywhere *)
-Fixpoint first_bad (st : state) (n : N) (steps : list (label * obs)) : option (N * state * option state) :=
+Fixpoint first_bad (st : state) (n : N) (steps : list (label * obs)) : option (N * state * option (state * state)) :=
   match steps with
   | [] => None
   | (l, o) :: r =>
-      match step st l with
+      match step3 st l with
       | None => Some (n, st, None)   (* the implementation took a step the model does not allow *)
-      | Some st' => if obs_ok l st st' o then first_bad st' (N.succ n) r else Some (n, st, Some st')
+      | Some (s1, s3) => if obs_ok st s1 s3 o then first_bad s3 (N.succ n) r else Some (n, st, Some (s1, s3))
       end
   end.
 
@@ -111,7 +174,7 @@ Record view := View {
   v_down_events : list cevent;
   v_awaitM : list (source * list entry);
   v_awaitE : list (source * list cevent);
-  v_lookup : list source;
+  v_lookup : list (bool * list source);   (* the stack, bottom first; flag = register loaded from this group *)
   v_gauges : Z * Z * Z
 }.
 
@@ -119,9 +182,9 @@ Definition explain_case (k : c11case) : option view :=
   match first_bad init 0%N (k_steps k) with
   | None => None
   | Some (n, _, None) => Some (View n false [] [] [] [] [] (0, 0, 0))
-  | Some (n, st, Some st') =>
-      let b := new_batch st st' in
+  | Some (n, st, Some (s1, st')) =>
+      let b := new_batch st s1 in
       Some (View n true (entries (abs_entries (batch_metrics b))) (batch_events b)
                  (map (λ kq, (kq.1, entries (abs_entries kq.2))) (map_to_list (awaitM st')))
-                 (map_to_list (awaitE st')) (toLookup st') (hostsM st', hostsE st', itemsE st'))
+                 (map_to_list (awaitE st')) (rev (stack (lk st'))) (hostsM st', hostsE st', itemsE st'))
   end.
